@@ -277,12 +277,21 @@ def _raw_metadata_problems(path, ref):
                                  % (axis, k, len(raw), len(want)))
                     continue
                 for i, (r, x) in enumerate(zip(raw, want)):
+                    try:
+                        if isinstance(x, list):
+                            got = [spec_h5._text(v)
+                                   for v in np.atleast_1d(r)]
+                        elif isinstance(x, str):
+                            got = spec_h5._text(r)
+                    except UnicodeDecodeError:
+                        probs.append('%s/metadata/%s row %d is not valid '
+                                     'UTF-8: %r' % (axis, k, i, r))
+                        break
                     if isinstance(x, list):
-                        got = [spec_h5._text(v) for v in np.atleast_1d(r)]
                         got = [v for v in got if v != '']
                         ok = got == x
                     elif isinstance(x, str):
-                        ok = spec_h5._text(r) == x
+                        ok = got == x
                     elif isinstance(x, bool):
                         ok = not isinstance(r, (bytes, str)) and \
                             bool(r) == x
@@ -302,6 +311,7 @@ def c04_spec(w, ev, slot):
     ref = slot.ref
     if not h5_grammar_ok(ref):
         return 'skip:md_grammar'
+    _add_group_md(w, ev, slot)
     if _group_md_text(slot.real) is False:
         return 'skip:loaded_group_md'
     target = with_caller_zero(w, slot, ev.get('salt', 0) // 7)
